@@ -42,7 +42,8 @@ fn extract(text: &str) -> Result<String, String> {
     let (mut depth, mut min) = (0i64, 0i64);
     for c in body.chars() { match c { '{' => depth += 1, '}' => { depth -= 1; min = min.min(depth) } _ => {} } }
     if depth != 0 || min < 0 { return Err(format!("extracted region is not brace-balanced (depth {depth}, min {min})")); }
-    for needle in ["impl WaitGroup", "impl Drop for WaitGroup", "impl Future for WaitGroup"] {
+    // (`impl Drop` is deliberately not demanded: where the count is released is part of what is checked)
+    for needle in ["impl WaitGroup", "impl Future for WaitGroup"] {
         if !body.contains(needle) { return Err(format!("`{needle}` not in the extracted region")); }
     }
     Ok(body.to_string())
